@@ -1,10 +1,38 @@
 """Line-level checks (C01-C05, C10, C11, C16): TLC-enumerated corpora -> real library -> TLC monitor."""
-import json, os, time, collections
+import json, os, time, collections, random
 import alverif as A
+import style as S
 
-# property -> list of corpus plans: (corpus, ctx, modes, quick sample size or None, thorough sample size or None)
+ALLCTX = "solo0,first,mid,last"
+ALLMODES = "plain,fit,count"
+
+
+def is_movimm(r):
+    a = r.get("ast")
+    return bool(a and a["mn"] == "mov" and len(a["opds"]) == 2 and a["opds"][0]["k"] == "r" and a["opds"][0]["w"] == 64 and a["opds"][1]["k"] == "i")
+
+
+FILTERS = {"movimm": is_movimm}
+
+# property -> list of plans: (corpus, ctx, modes, quick sample size, thorough sample size, filter name, thorough-only)
 PLANS = {
-    "C01": [("C01", "solo0,solo37", "plain", 9000, None)],
+    "C01": [("C01", "solo0,solo37", "plain", 9000, None, None, False)],
+    "C02": [(c, "solo0", "plain", 1800, None, None, False) for c in ("C02a", "C02b", "C02c", "C02d", "C02e", "C02f", "C02g")],
+    "C03": [("C03", "solo0", "plain", 7000, None, None, False)],
+    "C04": [("C04a", "solo0", "plain", 3000, None, None, False), ("C04b", "solo0", "plain", 2500, None, None, False),
+            ("C04c", "solo0", "plain", 2000, None, None, False),
+            ("C04d", "solo0", "plain", 0, None, None, True), ("C04e", "solo0", "plain", 0, None, None, True),
+            ("C04f", "solo0", "plain", 0, None, None, True)],
+    "C05": [("C05", "solo0,solo37", "plain", 6000, None, None, False), ("C05m", "solo0", "plain", 2500, None, None, False)],
+    "C10": [("C10x", ALLCTX, ALLMODES, None, None, None, False), ("C10a", ALLCTX, ALLMODES, 4000, None, None, False),
+            ("C10b", "solo0,mid", ALLMODES, 800, None, None, False), ("C10c", "solo0,mid", ALLMODES, 800, None, None, False),
+            ("C10d", "solo0,mid", ALLMODES, 800, None, None, False)],
+    "C11": [("C03", "solo0", "plain", None, None, "movimm", False), ("C11s", "solo0", "plain", 2500, None, None, False),
+            ("C11t", "solo0", "plain", 1500, None, None, False),
+            ("C01", "solo0", "plain", 2500, 20000, None, False), ("C02d", "solo0", "plain", 1200, None, None, False),
+            ("C02b", "solo0", "plain", 800, None, None, False),
+            ("C04c", "solo0", "plain", 800, None, None, False), ("C05", "solo0", "plain", 1200, None, None, False),
+            ("C03", "solo0", "plain", 1500, None, None, False)],
 }
 LEVEL = {p: "exploration" for p in ("C01", "C02", "C03", "C04", "C05", "C10", "C11", "C16")}
 
@@ -15,9 +43,76 @@ def attribute(reason, rec):
     return rec.get("prop", "X"), reason
 
 
-def judge(prop, events):
-    """returns list of (rec, reason, detail) attributed to prop"""
-    bad, judged = A.monitor(events)
+def sval(neg, mag):
+    v = A.le(mag)
+    return -v if neg else v
+
+
+def features(rec, reason, detail):
+    """flat feature dictionary of a failing event, the vocabulary of known_findings.json"""
+    f = {"reason": reason, "status": rec.get("status"), "text": rec.get("text"), "cls": rec.get("cls"),
+         "ctx": detail.get("ctx"), "mode": detail.get("mode"), "opt": detail.get("opt"), "style": detail.get("ctx")}
+    oi = detail.get("opt")
+    if isinstance(oi, int) and oi >= 0:
+        f["opt.mov"] = ["STRICT", "NASM", "SMART"][oi // 4]
+        f["opt.swap"] = "NASM" if (oi // 2) % 2 else "STRICT"
+        f["opt.nobase"] = "NASM" if oi % 2 else "STRICT"
+    ast = rec.get("ast")
+    if not ast:
+        return f
+    f["mn"] = ast["mn"]
+    kinds = ""
+    for j, o in enumerate(ast["opds"], 1):
+        k = o["k"]
+        if k == "r":
+            kinds += {"g": "r", "m": "r", "x": "v", "y": "y"}[o["f"]]
+            f.update({"o%d.f" % j: o["f"], "o%d.w" % j: o["w"], "o%d.n" % j: o["n"], "o%d.h" % j: o["h"], "o%d.hi" % j: o["n"] >= 8})
+        elif k == "m":
+            kinds += "m"
+            d = sval(o["neg"], o["dm"]) if o["hasd"] else 0
+            f.update({"m.pos": j, "m.w": o["w"], "m.a": o["a"], "m.b": o["b"], "m.i": o["i"], "m.s": o["s"], "m.kw": o["kw"], "m.hasd": o["hasd"],
+                      "m.neg": o["neg"] and o["hasd"], "m.far": o["far"], "m.nobase": o["b"] < 0 <= o["i"], "m.abs": o["b"] < 0 and o["i"] < 0,
+                      "m.spidx": o["i"] == 4, "m.bhi": o["b"] >= 8, "m.ihi": o["i"] >= 8, "m.disp": d, "m.ord": o["ord"],
+                      "m.b7": o["b"] % 8 if o["b"] >= 0 else -1, "m.i7": o["i"] % 8 if o["i"] >= 0 else -1})
+        else:
+            kinds += "i"
+            v = sval(o["neg"], o["mag"])
+            f.update({"i.pos": j, "i.neg": o["neg"], "i.val": v, "i.u": v % (1 << 64), "i.radix": o["radix"], "i.digits": o.get("digits", 0), "i.kw": o.get("kw", "")})
+        f["o%d.k" % j] = k
+    f["kinds"] = kinds
+    f["nopd"] = len(ast["opds"])
+    return f
+
+
+def match_entry(entry, prop, feat):
+    if entry.get("status") != "open" or entry["property"] != prop:
+        return False
+    if feat["reason"] not in entry["reason"]:
+        return False
+    for k, want in entry.get("match", {}).items():
+        got = feat.get(k)
+        if isinstance(want, dict):
+            if "in" in want and got not in want["in"]:
+                return False
+            if "nin" in want and got in want["nin"]:
+                return False
+            if "ge" in want and not (isinstance(got, (int, float)) and got >= want["ge"]):
+                return False
+            if "le" in want and not (isinstance(got, (int, float)) and got <= want["le"]):
+                return False
+            if "ne" in want and got == want["ne"]:
+                return False
+            if "re" in want:
+                import re
+                if not (isinstance(got, str) and re.search(want["re"], got)):
+                    return False
+        elif got != want:
+            return False
+    return True
+
+
+def judge(prop, events, module="EncTrace"):
+    bad, judged = A.monitor(events, module=module)
     byid = {e["id"]: e for e in events}
     mine, others = [], collections.Counter()
     for (eid, reason, oi, ctx, mode) in bad:
@@ -31,13 +126,13 @@ def judge(prop, events):
 
 
 def triage(prop, failures):
-    """split failures into known findings and violations"""
-    known = A.load_known()
+    known = [e for e in A.load_known() if e["property"] == prop and e.get("status") == "open"]
     kf, viol = collections.OrderedDict(), []
     for rec, reason, detail in failures:
+        feat = features(rec, reason, detail)
         hit = None
         for e in known:
-            if A.match_known(e, prop, reason, rec, detail):
+            if match_entry(e, prop, feat):
                 hit = e
                 break
         if hit:
@@ -49,31 +144,86 @@ def triage(prop, failures):
 
 
 def slim(rec):
-    return {k: v for k, v in rec.items() if k in ("id", "prop", "status", "ast", "text", "flags", "cls")}
+    return {k: v for k, v in rec.items() if k in ("id", "prop", "status", "ast", "text", "flags", "cls", "toks")}
+
+
+def report(prop, tier, t0, judged, nclasses, failures, kf, confirmed, samples, plans_run, exhaustive, others, replay, rule_extra=""):
+    if os.environ.get("VERIF_CENSUS"):
+        os.makedirs(os.path.join(A.BUILD, "census"), exist_ok=True)
+        with open(os.path.join(A.BUILD, "census", "%s-%s.ndjson" % (prop, tier)), "w") as f:
+            for rec, reason, detail in failures:
+                ft = features(rec, reason, detail)
+                ft["bytes"] = [bytes(r["bytes"]).hex() for r in rec.get("runs", []) if detail.get("opt") in r.get("o", [])][:1]
+                ft["known"] = next((e["id"] for e in A.load_known() if match_entry(e, prop, ft)), None)
+                f.write(json.dumps(ft) + "\n")
+    for kid, (entry, n, rec) in kf.items():
+        print("KNOWN-FINDING: property=%s %s %s (%d failing events, e.g. `%s`)" % (prop, kid, entry["what"], n, (rec.get("text") or "").strip()))
+    seen = collections.Counter()
+    for rec, reason, detail in confirmed:
+        key = (rec.get("ast", {}).get("mn", rec.get("cls", "")), reason)
+        seen[key] += 1
+        if seen[key] > 2:
+            continue
+        path = A.write_replay(prop, "%s-%s" % (rec["id"], reason.replace(":", "_")),
+                              {"property": prop, "reason": reason, "detail": detail, "record": slim(rec), "observed": rec.get("runs")})
+        print("VIOLATION property=%s replay=%s  (%s: `%s` opt=%s ctx=%s mode=%s)" %
+              (prop, path, reason, (rec.get("text") or "").strip(), detail.get("opt"), detail.get("ctx"), detail.get("mode")))
+    for key, n in seen.items():
+        if n > 2:
+            print("  (+%d more violations of kind %s/%s)" % (n - 2, key[0], key[1]))
+    wall = time.time() - t0
+    cov = {"evaluations": judged, "distinct_nontrivial": len(nclasses),
+           "rule": "TLC enumerates the corpus sets of spec/GenCorpus.tla (%s); every record is rendered, assembled by the freshly built library under the 12 option "
+                   "combinations (and the listed contexts/modes) and judged by TLC (spec/EncTrace.tla: DecodeOne(bytes) must satisfy MatchWhy(ast, opts), invalid lines must fail "
+                   "without emitting). A case is one input line; distinct_nontrivial counts distinct (mnemonic, operand kinds, widths, low/high/legacy-high register pattern, "
+                   "memory shape, literal spelling) classes among the lines judged.%s" % (", ".join(p[0] for p in plans_run), rule_extra),
+           "samples": samples[:6], "exhaustive": bool(exhaustive and not replay),
+           "corpora": [{"corpus": p[0], "ctx": p[1], "modes": p[2], "lines": p[3]} for p in plans_run],
+           "known_findings": {k: v[1] for k, v in kf.items()},
+           "failing_events": len(failures), "violations_confirmed": len(confirmed),
+           "other_property_observations": dict(others)}
+    if not replay:
+        A.write_evidence(prop, tier, LEVEL[prop], cov, wall, len(confirmed),
+                         ["TLC evaluates the oracle correctly", "the renderer (lib/alverif.py, lib/style.py) prints the AST in the documented syntax (cross-checked by the nasm self-test)",
+                          "linerun's two-pattern diff sees every written byte", "X86.tla follows the Intel SDM for the covered forms (validated against nasm)"])
+    print("%s %s: judged %d events, %d classes, %d failing, %d known, %d violations, %.1fs" %
+          (prop, tier, judged, len(nclasses), len(failures), sum(v[1] for v in kf.values()), len(confirmed), wall))
+    return 1 if confirmed else 0
 
 
 def run(prop, tier, replay=None):
+    if prop == "C16":
+        return run_c16(prop, tier, replay)
     t0 = time.time()
     A.build("plain")
     A.build_harness("linerun")
     plans = PLANS[prop]
-    all_events, exhaustive, nclasses = [], True, set()
+    plans_run, exhaustive, nclasses = [], True, set()
     failures, others, judged = [], collections.Counter(), 0
     samples = []
     if replay:
         rp = json.load(open(replay))
-        plans = [("replay", rp.get("ctx", "solo0,solo37,first,mid,last"), rp.get("modes", "plain,fit,count"), None, None)]
-    for (cname, ctx, modes, nq, nt) in plans:
+        plans = [("replay", ALLCTX + ",solo37", ALLMODES, None, None, None, False)]
+    allrecs = {}
+    for (cname, ctx, modes, nq, nt, flt, thorough_only) in plans:
+        if thorough_only and tier == "quick":
+            exhaustive = False
+            continue
         if replay:
             recs = [rp["record"]]
         else:
             recs = A.load_corpus(A.corpus(cname))
+            if flt:
+                recs = [r for r in recs if FILTERS[flt](r)]
             n = nq if tier == "quick" else nt
             if n is not None and n < len(recs):
                 exhaustive = False
             recs = A.sample(recs, n, A.SEED)
+        if not recs:
+            continue
         for r in recs:
             r.pop("runs", None)
+            r["id"] = "%s/%s" % (cname, r["id"])
         events = A.run_lines(recs, ctx=ctx, modes=modes)
         f, o, j = judge(prop, events)
         failures += f
@@ -81,53 +231,120 @@ def run(prop, tier, replay=None):
         judged += j
         for e in events:
             nclasses.add(A.klass(e))
-        for e in events[:2] + events[-1:]:
+            allrecs[e["id"]] = (e, ctx, modes)
+        for e in events[:1] + events[-1:]:
             samples.append({"text": e["text"], "status": e["status"],
                             "runs": [{"opts": r["o"], "ctx": r["ctx"], "mode": r["mode"], "ret": r["ret"], "bytes": bytes(r["bytes"]).hex()} for r in e["runs"][:2]]})
-        all_events += [(cname, ctx, modes)]
+        plans_run.append((cname, ctx, modes, len(events)))
     kf, viol = triage(prop, failures)
-    # confirm violations by re-running exactly those records (a rejection is reported only if it repeats)
-    confirmed = []
+    # a rejection is reported only if re-running exactly that record repeats it
+    confirmed = viol
     if viol and not replay:
-        again = [slim(v[0]) for v in viol]
-        uniq = {r["id"]: r for r in again}
-        ctxs = ",".join(sorted({c for (_, c, _) in all_events for c in c.split(",")}))
-        modes = ",".join(sorted({m for (_, _, m) in all_events for m in m.split(",")}))
-        ev2 = A.run_lines(list(uniq.values()), ctx=ctxs, modes=modes)
-        f2, _, _ = judge(prop, ev2)
-        rep = {(r["id"], reason) for (r, reason, _) in f2}
+        groups = collections.defaultdict(dict)
+        for (rec, reason, detail) in viol:
+            _, ctx, modes = allrecs[rec["id"]]
+            groups[(ctx, modes)][rec["id"]] = slim(rec)
+        rep = set()
+        for (ctx, modes), recs in groups.items():
+            ev2 = A.run_lines(list(recs.values()), ctx=ctx, modes=modes)
+            f2, _, _ = judge(prop, ev2)
+            rep |= {(r["id"], reason) for (r, reason, _) in f2}
         confirmed = [v for v in viol if (v[0]["id"], v[1]) in rep]
+    return report(prop, tier, t0, judged, nclasses, failures, kf, confirmed, samples, plans_run, exhaustive, others, replay)
+
+
+# ----------------------------------------------------------------------------- C16
+def c16_bases(tier):
+    """representative lines: class-covering seeded sample over the C01-C05 corpora"""
+    n = {"quick": 12, "thorough": 60}[tier]
+    out = []
+    for cname in ("C01", "C02b", "C02d", "C02e", "C02g", "C03", "C04a", "C04c", "C05", "C05m"):
+        recs = [r for r in A.load_corpus(A.corpus(cname)) if r["status"] == "Supported"]
+        rnd = random.Random(A.SEED * 7919 + len(out))
+        by = {}
+        for r in recs:
+            by.setdefault(A.klass(r).split("|")[0] + "|" + "".join(o["k"] for o in r["ast"]["opds"]), []).append(r)
+        keys = sorted(by)
+        rnd.shuffle(keys)
+        for k in keys[:n]:
+            r = rnd.choice(by[k])
+            r["id"] = "%s/%s" % (cname, r["id"])
+            out.append(r)
+    return out
+
+
+def run_c16(prop, tier, replay=None):
+    t0 = time.time()
+    A.build("plain")
+    A.build_harness("linerun")
+    styles = [json.loads(l) for l in open(A.corpus("STYLES2"))]
+    if tier == "thorough":
+        st3 = [json.loads(l) for l in open(A.corpus("STYLES3"))]
+        random.Random(A.SEED).shuffle(st3)
+        styles += st3[:120]
+    decor = [A.toktext(json.loads(l)["toks"]) for l in open(A.corpus("DECOR"))]
+    if replay:
+        rp = json.load(open(replay))
+        bases = [rp["record"]]
     else:
-        confirmed = viol
-    for kid, (entry, n, rec) in kf.items():
-        print("KNOWN-FINDING: property=%s %s %s (%d inputs, e.g. `%s`)" % (prop, kid, entry["what"], n, rec.get("text", "")))
-    seen = collections.Counter()
-    for rec, reason, detail in confirmed:
-        key = (rec.get("ast", {}).get("mn", ""), reason)
-        seen[key] += 1
-        if seen[key] > 2:
-            continue
-        path = A.write_replay(prop, "%s-%s" % (rec["id"], reason.replace(":", "_")),
-                              {"property": prop, "reason": reason, "detail": detail, "record": slim(rec),
-                               "observed": rec.get("runs"), "ctx": detail.get("ctx") or "solo0", "modes": detail.get("mode") or "plain"})
-        print("VIOLATION property=%s replay=%s  (%s: `%s`)" % (prop, path, reason, rec.get("text", "")))
-    for key, n in seen.items():
-        if n > 2:
-            print("  (+%d more violations of kind %s/%s)" % (n - 2, key[0], key[1]))
-    wall = time.time() - t0
-    cov = {"evaluations": judged, "distinct_nontrivial": len(nclasses),
-           "rule": "TLC enumerates the corpus set of spec/GenCorpus.tla (%s); every record is rendered, assembled by the freshly built library under the 12 option "
-                   "combinations and judged by TLC (EncTrace.tla: DecodeOne(bytes) must satisfy MatchWhy(ast, opts)). A case is one input line; distinct_nontrivial counts distinct "
-                   "(mnemonic, operand kinds, widths, low/high/legacy-high register pattern, literal spelling) classes among them." % ", ".join(c for c, _, _ in all_events),
-           "samples": samples[:6], "exhaustive": bool(exhaustive and not replay),
-           "corpora": [{"corpus": c, "ctx": x, "modes": m} for c, x, m in all_events],
-           "known_findings": {k: v[1] for k, v in kf.items()},
-           "failing_events": len(failures), "violations_confirmed": len(confirmed),
-           "other_property_observations": dict(others)}
+        bases = c16_bases(tier)
+    jobs, meta = [], {}
+    for b in bases:
+        if "ast" in b:
+            jobs.append({"id": b["id"] + "#c", "text": S.apply(b["ast"], S.DEFAULT), "prop": "C16", "status": "Unconstrained"})
+            for k, st in enumerate(styles):
+                jid = "%s#%d" % (b["id"], k)
+                jobs.append({"id": jid, "text": S.apply(b["ast"], st), "prop": "C16", "status": "Unconstrained"})
+                meta[jid] = (S.key(st), st["zeros"] != "asis" or st["radix"] != "asis")
+    # programs with decoration lines inserted at every position, LF and CRLF
+    rnd = random.Random(A.SEED + 5)
+    nprog = {"quick": 6, "thorough": 40}[tier]
+    progs = []
     if not replay:
-        A.write_evidence(prop, tier, LEVEL[prop], cov, wall, len(confirmed),
-                         ["TLC evaluates the oracle correctly", "the renderer lib/alverif.py:render prints the AST in the documented syntax (cross-checked by the nasm self-test)",
-                          "linerun's two-pattern diff sees every written byte", "X86.tla follows the Intel SDM for the covered forms (validated against nasm)"])
-    print("%s %s: judged %d events, %d classes, %d failing, %d known, %d violations, %.1fs" %
-          (prop, tier, judged, len(nclasses), len(failures), sum(v[1] for v in kf.values()), len(confirmed), wall))
-    return 1 if confirmed else 0
+        lines = [S.apply(b["ast"], S.DEFAULT) for b in bases]
+        for p in range(nprog):
+            body = [rnd.choice(lines) for _ in range(3)]
+            pid = "prog-%d" % p
+            progs.append({"id": pid, "prop": "C16", "status": "Unconstrained", "text": "\n".join(body)})
+            jobs.append({"id": pid + "#c", "text": "\n".join(body), "prop": "C16", "status": "Unconstrained"})
+            k = 0
+            for eol in ("\n", "\r\n"):
+                for pos in range(4):
+                    for d in decor:
+                        v = body[:pos] + [d] + body[pos:]
+                        jid = "%s#%d" % (pid, k)
+                        k += 1
+                        jobs.append({"id": jid, "text": eol.join(v) + (eol if (k % 2) else ""), "prop": "C16", "status": "Unconstrained"})
+                        meta[jid] = ("decor=%r@%d,eol=%s" % (d, pos, "lf" if eol == "\n" else "crlf"), False)
+    ran = A.run_lines(jobs, ctx="solo0", modes="plain")
+    by = collections.defaultdict(dict)
+    for e in ran:
+        base, k = e["id"].rsplit("#", 1)
+        by[base][k] = e
+    events = []
+    for b in bases + progs:
+        g = by[b["id"]]
+        ev = {"id": b["id"], "prop": "C16", "status": "Unconstrained", "text": g["c"]["text"], "canon": g["c"]["runs"], "vars": []}
+        if "ast" in b:
+            ev["ast"] = b["ast"]
+        for k, e in g.items():
+            if k == "c":
+                continue
+            sk, zr = meta[e["id"]]
+            v = {"sk": sk, "zr": zr, "runs": e["runs"], "text": e["text"]}
+            if "fault" in e:
+                v["fault"] = e["fault"]
+            ev["vars"].append(v)
+        events.append(ev)
+    failures, others, judged = judge(prop, events, module="StyleTrace")
+    nvars = sum(len(e["vars"]) for e in events)
+    # detail.ctx carries the style key
+    kf, viol = triage(prop, failures)
+    samples = [{"canonical": e["text"], "variant": e["vars"][i]["text"], "style": e["vars"][i]["sk"]} for e in events[:3] for i in (0, len(e["vars"]) // 2)]
+    classes = {(A.klass(b) if "ast" in b else b["id"], sk) for b in bases + progs for sk in [v["sk"] for v in by and events[0]["vars"]][:0]} or set()
+    classes = {(e["id"], v["sk"]) for e in events for v in e["vars"]}
+    return report(prop, tier, t0, nvars, classes, failures, kf, viol, samples,
+                  [("STYLES2%s x %d representative lines + %d decorated programs" % ("+STYLES3 sample" if tier == "thorough" else "", len(bases), len(progs)), "solo0", "plain", nvars)],
+                  False, others, replay,
+                  rule_extra=" For C16 a case is one (line or program, style) pair: spec/StyleTrace.tla requires the outcome (return value and bytes) under every option combination to equal "
+                             "that of the canonical spelling; styles are all elements of StyleDims that differ from the canonical style in at most two dimensions.")
